@@ -746,6 +746,9 @@ func materialiseCase(dir string, sc *cases.ScanCase) (*gitrepo.Repo, error) {
 			if hx == "" {
 				return nil, fmt.Errorf("ref %s: unknown target %s", rt.Name, rt.O)
 			}
+			if rt.Symref != "" {
+				hx = "ref: " + rt.Symref
+			}
 			if err := gitrepo.WriteRef(r.GitDir, expandPlaceholders(rt.Name, r), hx); err != nil {
 				return nil, err
 			}
